@@ -72,3 +72,37 @@ CONTRACTS[F + 'HierarchyAnalyzerBase.get_graph'] = dict(
     modifies=['self._feasibility_mask'],
     unchanged_on_raise=False,
 )
+
+
+# ---- HierarchyAnalyzerBase.imputation_ratio: declared size / number of valid combinations (C04) -----------------------
+CLASSES['HierarchyAnalyzerBase']['n_design_space'] = 'Int'
+CONTRACTS[F + 'HierarchyAnalyzerBase.imputation_ratio'] = dict(
+    properties=['C04'],
+    types={'self': 'Ref[HierarchyAnalyzerBase]'},
+    returns='Real',
+    ensures={
+        'empty-design-space-gives-one': ('property', 'implies(self.n_combinations == 0, result == 1)'),
+        'quotient-of-declared-size-and-valid-combinations': ('property', 'implies(self.n_combinations != 0, result == self.n_design_space / self.n_combinations)'),
+    },
+    modifies=[],
+)
+
+
+def _domain_base_imputation_ratio(n):
+    import random, os
+    from adsg_core.optimization.hierarchy.base import HierarchyAnalyzerBase
+    rng = random.Random(7800 + int(os.environ.get('VERIF_SEED', '0') or 0))
+    fn = HierarchyAnalyzerBase.__dict__['imputation_ratio']
+    fn = getattr(fn, 'func', None) or getattr(fn, 'fget', None) or fn
+
+    class A:
+        pass
+    for _ in range(n):
+        a = A()
+        a.n_combinations = rng.choice([0, 1, 2, 3, 6, 10])
+        a.n_design_space = rng.choice([0, 1, 2, 4, 9, 36])
+        yield ({'self': a}, (lambda a=a: fn(a)), {}, f'imputation_ratio(n_combinations={a.n_combinations}, n_design_space={a.n_design_space})')
+
+
+DOMAIN = dict(globals().get('DOMAIN', {}))
+DOMAIN[F + 'HierarchyAnalyzerBase.imputation_ratio'] = _domain_base_imputation_ratio
